@@ -348,6 +348,7 @@ func runC13(c *Ctx) {
 	// first: the USE typestate (one live service per database, the previous one closed) is part of C13
 	c17Use(c, "C13.5")
 	c17Existence(c, "C13.6")
+	ruleLogWritesReachFile(c, "C13.7")
 }
 
 func isLogAppend(f *Func) bool {
